@@ -291,8 +291,8 @@ def classify_C13(case, failure):
 
 
 def classify_C17(case, failure):
-    # (the open C17 finding - a BEGIN..END block nested in a branch of a CASE statement - is a production obligation of the
-    # proof, key C17:production:block@BODYC; the bounded domain has no such script)
+    # (no open C17 finding: the last one - a BEGIN..END block nested in a branch of a CASE statement, production
+    # block@BODYC - was repaired by fix c5a8928)
     return None
 
 
